@@ -212,6 +212,27 @@ func runJob(job *fwproto.Job) (res fwproto.Result) {
 		}
 		res.Calls = append(res.Calls, parseCall(job, st, runDir, root, modules))
 	}
+	if job.WarnOnly && len(res.Calls) >= 2 {
+		first, last := &res.Calls[0], &res.Calls[len(res.Calls)-1]
+		failed := func(c *fwproto.Call) (bool, *fwproto.Diag) {
+			for i := range c.Diags {
+				if c.Diags[i].Level == 2 {
+					return true, &c.Diags[i]
+				}
+			}
+			return c.Err != "" || c.Faulty, nil
+		}
+		if f0, _ := failed(first); !f0 {
+			if f1, d := failed(last); f1 {
+				sig, detail := "warning-fails|failed-without-error", "the program is accepted without errors; with a placeholder statement '...' (accepted with a warning) in one block it is marked faulty without any error"
+				if d != nil {
+					sig = fmt.Sprintf("warning-fails|%d|%s", d.Code, d.Fn)
+					detail = fmt.Sprintf("the program is accepted without errors; with a placeholder statement '...' (accepted with a warning) in one block it fails with (%d) %q @%v %s", d.Code, d.Msg, d.Range, d.File)
+				}
+				last.Viol = append(last.Viol, fwproto.Viol{Inv: "C07.I2", Sig: sig, Detail: detail})
+			}
+		}
+	}
 	return
 }
 
